@@ -99,7 +99,10 @@ def item_for(index: int) -> dict[str, Any]:
     target = rng.choice(targets)
     other_case = cs[(ci + 1) % len(cs)]
     other = other_case["steps"][0].get("main.py", "")
-    return {"index": index, "case": c["file"] + "::" + c["name"], "files": c["steps"][0], "flags": corpus.step_flags(c, 0),
+    flags = corpus.step_flags(c, 0)
+    if index % 4 == 0 and "--pretty" not in flags:
+        flags = flags + ["--pretty"]  # source snippets + caret lines: position handling on damaged text
+    return {"index": index, "case": c["file"] + "::" + c["name"], "files": c["steps"][0], "flags": flags, "appear": index % 3 == 1 and target != "main.py",
             "argv": corpus.step_argv(c, 0), "target": target, "op": OPERATORS[oi], "sector": SECTORS[si], "pos": pos,
             "mutated": mutate(c["steps"][0][target], other, OPERATORS[oi], SECTORS[si], pos)}
 
@@ -120,13 +123,13 @@ def signature(text: str) -> str:
     return f"{exc[-1] if exc else 'unknown'}@{last[0]}:{last[1]}"
 
 
-def check_run(r: dict[str, Any], what: str) -> dict[str, Any] | None:
+def check_run(r: dict[str, Any], what: str, pretty: bool = False) -> dict[str, Any] | None:
     blob = (r.get("stdout") or "") + (r.get("stderr") or "") + (r.get("leaked") or "") + (r.get("traceback") or "")
     if r["status"] == "timeout":
         return {"kind": "hang", "where": what}
     if "INTERNAL ERROR" in blob or "Traceback (most recent call last)" in blob or r["status"] not in (0, 1, 2):
         return {"kind": "internal_failure", "where": what, "status": r["status"], "signature": signature(blob), "detail": blob[-1800:]}
-    for line in (r.get("stdout") or "").splitlines():
+    for line in (r.get("stdout") or "").splitlines() if not pretty else []:  # --pretty wraps messages to the terminal width
         if not LINE_RE.match(line) and not OTHER_OK.match(line):
             return {"kind": "malformed_message_line", "where": what, "line": line[:300]}
     return None
@@ -186,14 +189,14 @@ def eval_batch(it: dict[str, Any], tag: str) -> dict[str, Any]:
         r2 = h.run("warm", extra=extra)
         out["runs"] += 1
         out["nontrivial"] = r2.get("stdout") != r1.get("stdout")
-        v = check_run(r2, "after_faulty_save")
+        v = check_run(r2, "after_faulty_save", "--pretty" in extra)
         if v:
             out["violation"] = v
             return out
         h.apply_step({"edits": [{"e": "write", "path": it["target"], "text": it["files"][it["target"]]}], "gap_s": 2.0})
         r3 = h.run("warm", extra=extra)
         out["runs"] += 1
-        v = check_run(r3, "after_heal")
+        v = check_run(r3, "after_heal", "--pretty" in extra)
         if v:
             out["violation"] = v
             return out
@@ -223,6 +226,15 @@ def eval_daemon(it: dict[str, Any], tag: str) -> dict[str, Any]:
         {"files": f1, "mt": mt1, "request": {"cmd": "check", "files": argv}},
         {"files": files0, "mt": mt2, "request": {"cmd": "check", "files": argv}},
     ]
+    if it.get("appear") and it["target"] not in argv:
+        # variant: the daemon has never seen the file; it first appears half-saved, then complete
+        without = {p: t for p, t in files0.items() if p != it["target"]}
+        steps = [
+            {"files": without, "mt": {p: t0 for p in without}, "request": {"cmd": "check", "files": argv}},
+            {"files": f1, "mt": mt1, "request": {"cmd": "check", "files": argv}},
+            {"files": f1, "mt": mt1, "request": {"cmd": "check", "files": argv}},
+            {"files": files0, "mt": mt2, "request": {"cmd": "check", "files": argv}},
+        ]
     root = kit.new_dir(f"c20-{os.getpid()}-{tag}d")
     try:
         try:
@@ -241,7 +253,8 @@ def eval_daemon(it: dict[str, Any], tag: str) -> dict[str, Any]:
     if "crash" in got[0] or got[0].get("status") not in (0, 1, 2):
         out["skipped"] = "the unmodified corpus program does not check clean in the daemon"
         return out
-    names = ["daemon_check", "daemon_after_faulty_save", "daemon_after_heal"]
+    appear = len(steps) == 4
+    names = ["daemon_check", "daemon_after_faulty_save", "daemon_after_heal"] if not appear else ["daemon_check_without_file", "daemon_file_appears_damaged", "daemon_same_request_again", "daemon_after_heal"]
     for g, nm in zip(got, names):
         if "crash" in g:
             out["violation"] = {"kind": "internal_failure", "where": nm, "signature": signature(g["crash"]), "detail": g["crash"][-1800:]}
@@ -249,16 +262,35 @@ def eval_daemon(it: dict[str, Any], tag: str) -> dict[str, Any]:
         if g.get("status") not in (0, 1, 2) or "error" in g:
             out["violation"] = {"kind": "daemon_bad_response", "where": nm, "response": {k: str(v)[:300] for k, v in g.items()}}
             return out
-    if len(got) < 3:
+    if len(got) < len(steps):
         out["violation"] = {"kind": "daemon_stopped_answering", "where": "daemon", "answered": len(got)}
         return out
     out["nontrivial"] = got[1].get("out") != got[0].get("out")
-    a, b = daemonsim.observable(got[2]), daemonsim.observable(got[0])
+    if appear:
+        # after the heal the long-lived daemon must agree with a fresh daemon on the complete files
+        root2 = kit.new_dir(f"c20-{os.getpid()}-{tag}f")
+        try:
+            fresh = kit.fork_call(daemonsim.history_child, root2, None, flags, [steps[-1]], None, timeout=120, output_path=os.path.join(root2, "child.out"))
+        finally:
+            kit.rmtree(root2)
+        if isinstance(fresh, kit.ChildDied) or "crash" in fresh[0]:
+            out["skipped"] = "the complete program does not check clean in a fresh daemon"
+            return out
+        first = fresh[0]
+    else:
+        first = got[0]
+    a, b = daemonsim.observable(got[-1]), daemonsim.observable(first)
     for o in (a, b):
         o["other"] = [l for l in o["other"] if not l.startswith(("Found ", "Success: "))]
-    if a != b:
-        out["violation"] = {"kind": "not_recovered_after_heal", "where": "daemon", "after_heal": got[2].get("out", "")[-800:], "first": got[0].get("out", "")[-800:], "status": [got[2].get("status"), got[0].get("status")]}
+    if a != b and c03_soft(a, b) is None:
+        out["violation"] = {"kind": "not_recovered_after_heal", "where": "daemon", "after_heal": got[-1].get("out", "")[-800:], "first": first.get("out", "")[-800:], "status": [got[-1].get("status"), first.get("status")]}
     return out
+
+
+def c03_soft(a: dict[str, Any], b: dict[str, Any]) -> str | None:
+    from checks import c03
+
+    return c03.classify_soft(a, b)
 
 
 def task(item: tuple[str, int]) -> dict[str, Any]:
